@@ -65,6 +65,8 @@ def events_for(env, rng, thorough):
         ev.append({"op": "QPickle", "call": name, "eq": bool(q3 == q1), "hash1": hash(q1), "hash2": hash(q3), "desc1": desc(q1), "desc2": desc(q3)})
         o = P.outcome(q1.SetUnknownCaption, "x")
         ev.append({"op": "ReadOnly", "call": name, "cls": o[2] if o[0] == "exc" else "no exception"})
+        o = P.outcome(q1.SetUnknownCaption, q1.GetUnknownCaption())      # ... also when the caption given is the one it has
+        ev.append({"op": "ReadOnly", "call": name + " (its own caption)", "cls": o[2] if o[0] == "exc" else "no exception"})
     # every category of the table: the category-only request resolves to the category's default unit whatever was requested before
     # (first the base unit of its quantity type with the category named, then the category alone; for every other category the other way round)
     for k_, c in enumerate(sorted(db.IterCategories())):
@@ -103,6 +105,14 @@ def events_for(env, rng, thorough):
                 c = db.GetDefaultCategory(u)
                 if not c:
                     continue
+                # a history: the current spelling, the legacy spelling, the current spelling again - the identical object as the first time
+                for how, mk in (("unit+category", lambda s_: ObtainQuantity(s_, c)), ("unit alone", lambda s_: ObtainQuantity(s_)), ("unit+category+caption", lambda s_: ObtainQuantity(s_, c, "cap"))):
+                    h1 = P.outcome(mk, u)
+                    P.outcome(mk, leg)
+                    h2 = P.outcome(mk, u)
+                    if h1[0] == "ok" and h2[0] == "ok":
+                        ev.append({"op": "Intern", "call": "%s: %s, then the legacy spelling %s, then %s again" % (how, u, leg, u), "id1": id(h1[1]), "id2": id(h2[1]),
+                                   "desc1": desc(h1[1]), "desc2": desc(h2[1]), "hash1": hash(h1[1]), "hash2": hash(h2[1])})
                 for how, mk in (("unit+category", lambda s_: ObtainQuantity(s_, c)), ("unit alone", lambda s_: ObtainQuantity(s_)), ("Quantity(category, unit)", lambda s_: Quantity(c, s_))):
                     o1, o2 = P.outcome(mk, leg), P.outcome(mk, u)
                     if o1[0] != "ok" or o2[0] != "ok":
